@@ -1,0 +1,119 @@
+//go:build verif
+// +build verif
+
+package kafka
+
+import (
+	"sync/atomic"
+)
+
+// This file only exists in builds with the `verif` tag.  It gives the
+// verification harness (a) schedule points inside the library and (b) thin
+// exported wrappers around the unexported consumer-group operations of Conn,
+// with primitive arguments and results.
+
+var verifHook atomic.Value // func(point string)
+
+// SetVerifHook installs (or, with nil, removes) the function called at every
+// schedule point.
+func SetVerifHook(f func(point string)) {
+	if f == nil {
+		f = func(string) {}
+	}
+	verifHook.Store(f)
+}
+
+func verifPoint(p string) {
+	if f, _ := verifHook.Load().(func(string)); f != nil {
+		f(p)
+	}
+}
+
+// VerifGroupProtocol is one protocol entry of a join group request.
+type VerifGroupProtocol struct {
+	Name     string
+	Metadata []byte
+}
+
+// VerifJoinResult is the outcome of VerifJoinGroup.
+type VerifJoinResult struct {
+	GenerationID  int32
+	GroupProtocol string
+	LeaderID      string
+	MemberID      string
+	Members       map[string][]byte
+}
+
+// VerifFindCoordinator wraps Conn.findCoordinator.
+func (c *Conn) VerifFindCoordinator(key string) (nodeID int32, host string, port int32, err error) {
+	r, err := c.findCoordinator(findCoordinatorRequestV0{CoordinatorKey: key})
+	return r.Coordinator.NodeID, r.Coordinator.Host, r.Coordinator.Port, err
+}
+
+// VerifJoinGroup wraps Conn.joinGroup.
+func (c *Conn) VerifJoinGroup(group, member, protocolType string, sessionTimeoutMs, rebalanceTimeoutMs int32, protocols []VerifGroupProtocol) (VerifJoinResult, error) {
+	req := joinGroupRequest{GroupID: group, MemberID: member, ProtocolType: protocolType, SessionTimeout: sessionTimeoutMs, RebalanceTimeout: rebalanceTimeoutMs}
+	for _, p := range protocols {
+		req.GroupProtocols = append(req.GroupProtocols, joinGroupRequestGroupProtocolV1{ProtocolName: p.Name, ProtocolMetadata: p.Metadata})
+	}
+	r, err := c.joinGroup(req)
+	out := VerifJoinResult{GenerationID: r.GenerationID, GroupProtocol: r.GroupProtocol, LeaderID: r.LeaderID, MemberID: r.MemberID, Members: map[string][]byte{}}
+	for _, m := range r.Members {
+		out.Members[m.MemberID] = m.MemberMetadata
+	}
+	return out, err
+}
+
+// VerifSyncGroup wraps Conn.syncGroup with opaque assignment bytes.
+func (c *Conn) VerifSyncGroup(group, member string, generation int32, assignments map[string][]byte, order []string) ([]byte, error) {
+	req := syncGroupRequestV0{GroupID: group, GenerationID: generation, MemberID: member}
+	for _, m := range order {
+		req.GroupAssignments = append(req.GroupAssignments, syncGroupRequestGroupAssignmentV0{MemberID: m, MemberAssignments: assignments[m]})
+	}
+	r, err := c.syncGroup(req)
+	return r.MemberAssignments, err
+}
+
+// VerifHeartbeat wraps Conn.heartbeat.
+func (c *Conn) VerifHeartbeat(group, member string, generation int32) error {
+	_, err := c.heartbeat(heartbeatRequestV0{GroupID: group, GenerationID: generation, MemberID: member})
+	return err
+}
+
+// VerifLeaveGroup wraps Conn.leaveGroup.
+func (c *Conn) VerifLeaveGroup(group, member string) error {
+	_, err := c.leaveGroup(leaveGroupRequestV0{GroupID: group, MemberID: member})
+	return err
+}
+
+// VerifOffsetCommit wraps Conn.offsetCommit for one topic.
+func (c *Conn) VerifOffsetCommit(group, member string, generation int32, topic string, offsets map[int32]int64, order []int32) error {
+	t := offsetCommitRequestV2Topic{Topic: topic}
+	for _, p := range order {
+		t.Partitions = append(t.Partitions, offsetCommitRequestV2Partition{Partition: p, Offset: offsets[p]})
+	}
+	_, err := c.offsetCommit(offsetCommitRequestV2{GroupID: group, GenerationID: generation, MemberID: member, RetentionTime: -1, Topics: []offsetCommitRequestV2Topic{t}})
+	return err
+}
+
+// VerifOffsetFetch wraps Conn.offsetFetch for one topic.
+func (c *Conn) VerifOffsetFetch(group, topic string, partitions []int32) (map[int32]int64, error) {
+	r, err := c.offsetFetch(offsetFetchRequestV1{GroupID: group, Topics: []offsetFetchRequestV1Topic{{Topic: topic, Partitions: partitions}}})
+	out := map[int32]int64{}
+	for _, t := range r.Responses {
+		for _, p := range t.PartitionResponses {
+			out[p.Partition] = p.Offset
+		}
+	}
+	return out, err
+}
+
+// VerifListGroups wraps Conn.listGroups.
+func (c *Conn) VerifListGroups() ([]string, error) {
+	r, err := c.listGroups(listGroupsRequestV1{})
+	var out []string
+	for _, g := range r.Groups {
+		out = append(out, g.GroupID)
+	}
+	return out, err
+}
